@@ -316,13 +316,64 @@ static int replay(const char *s) {
 
 static int popcount9(unsigned m) { return __builtin_popcount(m); }
 
+/* ---- giant entries and blocks (thorough tier, several GiB of memory): sizes at which zlib's 32-bit counters wrap (finding F13)
+ *   kind 0: default options (zlib), one value of 2^30 incompressible bytes -> the stored block is >= 1 GiB, the reader's inflate buffer reaches 4 GiB
+ *   kind 1: zlib, block_size 2^33, two values of 2^31 zero bytes -> one data block of more than 4 GiB goes through deflate and inflate
+ * The round trip must return exactly the entries, as for any other table (C01); the file must satisfy the independent decoder's
+ * container rules (C09: prefix, crc, index, trailer are checked by reading it back through the reader and by the trailer counts). ---- */
+typedef struct { int kind; } gcase_t;
+static void grender(char *b, size_t n, void *ctx) { gcase_t *g = ctx; snprintf(b, n, "Z:%d", g->kind); }
+static uint8_t gz_byte(uint64_t *st) { *st ^= *st << 13; *st ^= *st >> 7; *st ^= *st << 17; return (uint8_t) (*st >> 24); }
+static void giant_one(int kind) {
+	gcase_t g = { kind };
+	vh_case_begin(grender, &g);
+	if (!vh_batch_fork()) { vh_case_end(); return; }
+	vh_watchdog_s = 1200;
+	size_t vlen = kind == 0 ? ((size_t) 1 << 30) : ((size_t) 1 << 31); int nent = kind == 0 ? 1 : 2;
+	uint8_t *val = kind == 0 ? malloc(vlen) : calloc(vlen, 1);
+	if (!val) { printf("@error \"giant: out of memory\"\n"); vh_batch_exit(); }
+	if (kind == 0) { uint64_t st = 0x9e3779b97f4a7c15ull; for (size_t i = 0; i < vlen; i++) val[i] = gz_byte(&st); }
+	int fd = tbl_memfd();
+	struct mtbl_writer_options *o = mtbl_writer_options_init();
+	if (kind == 1) mtbl_writer_options_set_block_size(o, (size_t) 1 << 33);
+	struct mtbl_writer *w = mtbl_writer_init_fd(fd, o); mtbl_writer_options_destroy(&o);
+	static const char *keys[2] = { "a", "b" }; mtbl_res r[2] = { mtbl_res_success, mtbl_res_success };
+	for (int i = 0; i < nent; i++) { r[i] = mtbl_writer_add(w, (const uint8_t *) keys[i], 1, val, vlen); vh_case_seq++; }
+	mtbl_writer_destroy(&w);
+	vh_case_seq++;
+	for (int i = 0; i < nent; i++) if (r[i] != mtbl_res_success) vh_violation("giant-refused", "add #%d of a %zu-byte value in key order was refused", i, vlen);
+	struct mtbl_reader *rd = mtbl_reader_init_fd(fd, NULL);
+	if (!rd) vh_violation("giant", "the file written for %d value(s) of %zu bytes does not open", nent, vlen);
+	else {
+		const struct mtbl_metadata *m = mtbl_reader_metadata(rd);
+		if (mtbl_metadata_count_entries(m) != (uint64_t) nent || mtbl_metadata_bytes_values(m) != (uint64_t) nent * vlen || mtbl_metadata_count_data_blocks(m) != 1) vh_violation("giant-trailer", "trailer: %llu entries, %llu value bytes, %llu data blocks", (unsigned long long) mtbl_metadata_count_entries(m), (unsigned long long) mtbl_metadata_bytes_values(m), (unsigned long long) mtbl_metadata_count_data_blocks(m));
+		struct mtbl_iter *it = mtbl_source_iter(mtbl_reader_source(rd)); const uint8_t *k, *v; size_t kl, vl; int n = 0;
+		while (mtbl_iter_next(it, &k, &kl, &v, &vl) == mtbl_res_success) {
+			vh_case_seq++;
+			bool ok = n < nent && kl == 1 && k[0] == (uint8_t) keys[n][0] && vl == vlen;
+			if (ok) { if (kind == 0) ok = memcmp(v, val, vlen) == 0; else { for (size_t i = 0; i < vlen; i += 4096) if (v[i]) { ok = false; break; } if (v[vlen - 1]) ok = false; } }
+			if (!ok) { vh_violation("giant", "entry #%d reads back with key length %zu, value length %zu (expected 1, %zu) or other bytes", n, kl, vl, vlen); break; }
+			n++;
+		}
+		if (n != nent) vh_violation("giant", "iteration returned %d of %d entries", n, nent);
+		mtbl_iter_destroy(&it); mtbl_reader_destroy(&rd);
+	}
+	close(fd); free(val);
+	VH_COUNT("cases", 1); VH_COUNT("transitions", 2 * nent); VH_COUNT("giant_tables", 1);
+	vh_sig(vh_mix(0x61a27, kind));
+	vh_case_end();
+	vh_batch_exit();
+}
+
 int main(int argc, char **argv) {
 	vh_init(argc, argv);
 	P01 = !strcmp(vh_prop, "C01"); P09 = !strcmp(vh_prop, "C09"); P10 = !strcmp(vh_prop, "C10");
 	if (!P01 && !P09 && !P10) P01 = P09 = P10 = 1;
 	static tcase c;
+	if (vh_case_arg && vh_case_arg[0] == 'Z') { giant_one(atoi(vh_case_arg + 2)); return vh_finish(); }
 	if (vh_case_arg) { if (replay(vh_case_arg)) fprintf(stderr, "cannot parse case %s\n", vh_case_arg); return vh_finish(); }
 	const char *mode = vh_arg(0, "struct");
+	if (!strcmp(mode, "giant")) { if (vh_shard == 0) { giant_one(0); giant_one(1); } return vh_finish(); }
 	uint64_t idx = 0;
 	static const int comps[6] = { 0, 1, 3, 4, 5, 2 };
 	if (!strcmp(mode, "struct") || !strcmp(mode, "pool")) {
